@@ -18,6 +18,7 @@
   Part 7: when `_degrade` succeeds (`apiDegrade_inrange_isOk_iff`).
   Part 8: small facts for the property theorems.
   Part 9: integer `or` over a zero sentinel is unaffected by the missing validity mask.
+  Part 10: the `inexact` guard (`cellsFitF64`): no `.rat` / `.sqrtRat` / `.poison` cell is reduced.
 -/
 import HealSparse.Lemmas.WFRes
 namespace HS
@@ -1722,6 +1723,31 @@ theorem intRed_or_zero {b : Nat} {sg : Bool} (hb : 0 < b) (cells : List Val)
       simp only [this, if_true]
       rw [intRed_or_cons, intRed_or_cons]
       exact foldl_or_filter rest hrest r hr
+
+/-! ### Part 10: the `inexact` guard: what the float path never reduces -/
+
+/-- a cell the float path may reduce: not the exact rational / root / unpredictable value an
+    earlier `mean`, `std` or `wmean` degrade can leave -/
+def Val.reducible : Val → Bool
+  | .rat _ _ => false
+  | .sqrtRat _ _ => false
+  | .poison => false
+  | _ => true
+
+theorem cellsFitF64_reducible {sp : Array Val} (h : cellsFitF64 sp = true) {v : Val} (hv : v ∈ sp) :
+    Val.reducible v = true := by
+  unfold cellsFitF64 at h
+  rw [Array.all_eq_true_iff_forall_mem] at h
+  have := h v hv
+  cases v <;> first | rfl | (simp at this)
+
+theorem abs_mem_or_sentinel (m : MapObj) (p : Nat) : m.abs p ∈ m.st.sp ∨ m.abs p = m.vc.sentinel := by
+  have e : m.abs p = (m.st.sp[(lookup m.c m.st p).toNat]?).getD m.vc.sentinel := rfl
+  rw [e]
+  cases hg : m.st.sp[(lookup m.c m.st p).toNat]? with
+  | none => exact .inr rfl
+  | some v => exact .inl (Array.mem_of_getElem? hg)
+
 
 end ApiDegrade
 end HS
